@@ -53,6 +53,7 @@ class LogsDriver:
         self.labels = {}
         self.trace_of = {}  # trace string -> (given?, origin sid)
         self.ident_of = {}  # identifier string -> sid
+        self.empty_trace = set()  # scopes opened with trace_id=""
         self.exc = ValueError("attached")
         self.w.start("1")
 
@@ -119,6 +120,10 @@ class LogsDriver:
             trace, ident = given[0], hexes[-1]
         elif len(hexes) >= 2:
             trace, ident = hexes[0], hexes[-1]
+        elif len(hexes) == 1 and self._empty_ancestor(expect_sid):
+            # the empty trace id, taken as an id like any other: it is the id of the nearest scope that was given it
+            trace, ident = f"EMPTY{self._empty_ancestor(expect_sid)}", hexes[-1]
+            self.trace_of.setdefault(trace, dict(given=True, s=self._empty_ancestor(expect_sid)))
         else:
             out.update(tr=dict(given=False, s=-1), ident=-1, text="UNTAGGED " + body[:80])
             return out
@@ -136,6 +141,13 @@ class LogsDriver:
 
     _tr_of_scope = {}
     _is_probe = False
+
+    def _empty_ancestor(self, sid):
+        while sid:
+            if sid in self.empty_trace:
+                return sid
+            sid = self.parent.get(sid, 0)
+        return 0
 
     def _pick_named(self, cands, expect_sid):
         # several scopes may share a label text only for the empty name (root logger): origin is then the outermost
@@ -168,8 +180,11 @@ class LogsDriver:
             kw = {}
             if ownlog:
                 kw["logger"] = self._own_logger(sid)
-            if owntrace:
+            if owntrace is True or owntrace == "own":
                 kw["trace_id"] = f"T{sid}%2F%s"     # a caller's id is arbitrary text - here with %-sequences in it
+            elif owntrace == "empty":
+                kw["trace_id"] = ""                 # ... or the empty text
+                self.empty_trace.add(sid)
             w.do(str(t), "tryu")     # a catch-all right outside the block (it survives a cancellation of the block)
             w.do(str(t), "xscope", sid % 2 == 0, sid, lab, kw)
             self.lines[:] = []
@@ -271,7 +286,7 @@ def gen_trace(rnd, ntasks=4, nscopes=10, nops=40):
                 ch += [("Start", None)]
             name = rnd.choice(ch)[0]
             if name == "Open":
-                args = [t, rnd.choice(["plain", "empty", "fmt", "pct"]), rnd.random() < 0.3, rnd.random() < 0.3]
+                args = [t, rnd.choice(["plain", "empty", "fmt", "pct"]), rnd.random() < 0.3, rnd.choice(["no"] * 5 + ["own"] * 3 + ["empty"] * 2)]
                 nsid += 1
                 stack[t].append(nsid)
             elif name == "Close":
